@@ -419,6 +419,7 @@ def run(ctx):
 
     tag_tables(ctx, cs)
     no_discard(ctx, cs, closure)
+    transforms(ctx, cs, closure)
     sizes(ctx, cs)
 
 
@@ -997,3 +998,155 @@ def sizes(ctx, cs):
         ok, allow, bad = rules.dom_check(db, f, [bb], bounded)
         ctx.check(key, bool(ok and allow), "padding length taken from a peer is checked against the pong limit before use (%s)" % a[:80], rules.where(f, bb),
                   detail={"path": list(bad.values())[:1]}, fn=f)
+
+
+# ------------------------------------------------------------------ transformations of decoded data
+# What a decoder may do to a value it has read, between the read and the value it returns.  Anything else is an
+# unreviewed transformation: if it maps two wire values to one in-memory value (normalisation, canonicalisation, case
+# folding, trimming, clamping), re-encoding no longer reproduces the received bytes and signatures over them break.
+PLUMBING = re.compile(
+    r"ops::try_trait::(Try|FromResidual)|^core::result::Result::(map_err|and_then|ok|expect|unwrap|map|ok_or|ok_or_else|is_ok|is_err)$|"
+    r"^core::option::Option::(ok_or|ok_or_else|map|expect|unwrap|is_some|is_none|as_ref)$|"
+    r"IntoIterator>?::into_iter$|Iterator>?::(next|collect|map|enumerate|zip|rev|by_ref|copied|cloned|sum|count|all|any)$|"
+    r"ops::index::(Index|IndexMut)|ops::deref::(Deref|DerefMut)|^std::io::Read::(read_exact|read)$|^alloc::vec::from_elem$|"
+    r"clone::Clone::clone$|borrow::(ToOwned::to_owned|Borrow::borrow)$|convert::AsRef::as_ref$|^core::mem::(take|replace|swap)$|"
+    r"^alloc::(vec::Vec|collections::btree::(map::BTreeMap|set::BTreeSet)|collections::vec_deque::VecDeque|string::String)::"
+    r"(new|with_capacity|push|push_str|insert|extend|extend_from_slice|len|is_empty|capacity|as_slice|as_mut_slice|as_str|as_bytes|into_bytes|into_boxed_slice|iter)$|"
+    r"^core::slice::(len|is_empty|contains|iter|to_vec|starts_with)$|^core::str::(len|is_empty|as_bytes)$|"
+    r"^core::panicking::|^core::fmt::|^alloc::fmt::|^log::|::is_eof$|^core::cmp::|^core::hint::")
+CONVERSION = re.compile(
+    r" as core::convert::(From|TryFrom|Into|TryInto)<|^<T as core::convert::(Into|TryInto)<U>>::|"
+    r"^core::num::(from_be_bytes|from_le_bytes|from_ne_bytes)$|^alloc::string::String::(from_utf8|from_utf8_lossy_NOT)$|^core::str::converts::from_utf8$|"
+    r"^core::char::(from_u32|from_digit)$")
+# external constructors that keep every input bit (reviewed by reading the dependency)
+EXTERNAL_OK = {
+    "cypheraddr::tor::OnionAddrV3::from_raw_bytes": "parses the 35 raw bytes (key, checksum, version) and keeps them",
+    "git2::oid::Oid::from_bytes": "wraps the 20 bytes",
+    "bloomy::bloom::BloomFilter::hashes": "reads a parameter of the filter (used in a size check), not a transformation of the returned value",
+    "core::net::ip_addr::IpAddr::V4": "enum constructor", "core::net::ip_addr::IpAddr::V6": "enum constructor",
+    "radicle_node::bounded::BoundedVec::push": "appends the element unchanged (fails when the bound is exceeded)",
+    "radicle_node::bounded::BoundedVec::with_capacity": "allocation", "radicle_node::bounded::BoundedVec::capacity": "the bound",
+}
+
+
+def _is_constructor(db, callee, depth=0):
+    """A workspace function that only builds a value out of its arguments (struct/enum constructor, accessor of a
+    field, or a chain of those): every returned expression consists of aggregates, arguments, projections and constants."""
+    from .. import pathsum
+    if depth > 2:
+        return False
+    ss = pathsum.summaries(db, callee, 64)
+    if not ss:
+        return False
+
+    def simple(e, d=0):
+        if e is None or d > 12:
+            return False
+        e = peel(e)
+        k = e[0]
+        if k in ("arg", "const"):
+            return True
+        if k in ("field", "down", "cast"):
+            return simple(e[1] if k != "cast" else e[2], d + 1)
+        if k == "agg":
+            if isinstance(e[1], dict) and e[1].get("closure"):
+                return False
+            return all(simple(x, d + 1) for x in e[2])
+        if k == "call":
+            nm = e[1].get("n") or e[1].get("dn") or ""
+            if PLUMBING.search(nm) or CONVERSION.search(nm):
+                return all(simple(x, d + 1) for x in e[2])
+            c2 = db.one("^" + re.escape(nm) + "$") if nm else None
+            if c2 is not None and c2 is not callee and _is_constructor(db, c2, depth + 1):
+                return all(simple(x, d + 1) for x in e[2])
+            return False
+        if k in ("bin", "un", "discr"):
+            # arithmetic / comparisons on decoded data are computations, not constructors
+            return k == "discr" or (k == "bin" and e[1] in ("Eq", "Ne", "Lt", "Le", "Gt", "Ge"))
+        return False
+    return all(simple(ret) for p, facts, ret in ss)
+
+
+def transforms(ctx, cs, closure):
+    db = ctx.db
+
+    def operand_locals(x, acc):
+        if isinstance(x, (list, tuple)):
+            if len(x) == 2 and x[0] in ("c", "m") and isinstance(x[1], (list, tuple)) and len(x[1]) == 2 and isinstance(x[1][0], int):
+                acc.add(x[1][0])
+                return
+            for y in x:
+                operand_locals(y, acc)
+    n = 0
+    seen_keys = set()
+    for key in sorted(closure):
+        m = cs.impls[key]
+        if "dec" not in m:
+            continue
+        fd = m["dec"]
+        tainted = set()
+        for bb, t, c in db.calls(fd):
+            ev = codec.call_event(fd, bb, t)
+            if ev is not None and ev.kind == "dec":
+                tainted.add(t[3][0])
+                if ev.ty == "raw" and len(t[2]) >= 2:
+                    acc = set()
+                    operand_locals(t[2][1], acc)
+                    tainted |= acc
+        changed = True
+        while changed:
+            changed = False
+            for b in fd["blocks"]:
+                if b.get("c"):
+                    continue
+                for s_ in b["s"]:
+                    if s_[0] == "=":
+                        acc = set()
+                        operand_locals(s_[2], acc)
+                        if s_[2][0] in ("ref", "raw"):
+                            acc.add(s_[2][2][0])
+                        elif s_[2][0] == "discr":
+                            acc.add(s_[2][1][0])
+                        if acc & tainted and s_[1][0] not in tainted and s_[1][0] != 0:
+                            tainted.add(s_[1][0])
+                            changed = True
+                t = b["t"]
+                if t[0] == "call":
+                    acc = set()
+                    operand_locals(t[2], acc)
+                    if acc & tainted and t[3][0] not in tainted and t[3][0] != 0:
+                        tainted.add(t[3][0])
+                        changed = True
+        for bb, t, c in db.calls(fd):
+            acc = set()
+            operand_locals(t[2], acc)
+            if not (acc & tainted):
+                continue
+            ev = codec.call_event(fd, bb, t)
+            if ev is not None:
+                continue
+            nm = c.get("n") or c.get("dn") or "?"
+            dn = c.get("dn") or ""
+            k = "inj:transform:%s:%s" % (short_t(key), cfg.short(nm))
+            if k in seen_keys:
+                continue
+            seen_keys.add(k)
+            n += 1
+            if PLUMBING.search(nm) or PLUMBING.search(dn) or CONVERSION.search(nm) or CONVERSION.search(dn):
+                ctx.held(k, "%s::decode passes decoded data through %s (plumbing / conversion)" % (short_t(key), cfg.short(nm)), rules.where(fd, bb), fn=fd)
+                continue
+            if nm in EXTERNAL_OK:
+                ctx.held(k, "%s::decode passes decoded data through %s: %s" % (short_t(key), cfg.short(nm), EXTERNAL_OK[nm]), rules.where(fd, bb), fn=fd)
+                continue
+            callee = db.one("^" + re.escape(nm) + "$")
+            if callee is not None and _is_constructor(db, callee):
+                ctx.held(k, "%s::decode passes decoded data through the constructor/accessor %s" % (short_t(key), cfg.short(nm)), rules.where(fd, bb), fn=fd)
+                continue
+            if callee is not None:
+                ctx.ob(k, "inconclusive", "%s::decode applies %s to decoded data; the function is not a plain constructor and is not in the reviewed list "
+                       "(it must not map different wire values to the same value)" % (short_t(key), cfg.short(nm)), rules.where(fd, bb), fn=fd)
+                continue
+            ctx.violated(k, "%s::decode applies %s to decoded data before returning it: an unreviewed transformation — if it normalises the value "
+                            "(two wire encodings, one in-memory value) the message no longer re-encodes to the bytes received and signatures over them fail"
+                         % (short_t(key), cfg.short(nm)), rules.where(fd, bb), fn=fd)
+    ctx.floor("inj:transforms", n, 20, "calls applied to decoded data in decoders")
